@@ -18,6 +18,11 @@ def plans(quick):
             dict(family='kinds', opts={'gens': True},
                  gen=dict(steps=3, slots=1, lists=[['k1'], ['k1', 'k2']], fail=False), cover_limit=80, walks=30,
                  sim=dict(num=60, depth=10)),
+            # a task reading from the namespace mounted below it; the inner pipeline is a configuration of its own
+            dict(family='levels',
+                 checks=[dict(steps=4, slots=2, rcs=['v1', 'v2'])],
+                 gen=dict(steps=4, slots=1, lists=[['v2'], ['v3'], ['v1', 'v2']]), cover_limit=120, walks=40,
+                 sim=dict(num=60, depth=12)),
         ]
     return [
         dict(family='kinds', opts={'gens': True}, checks=[dict(steps=4, slots=1)], gen=dict(steps=4, slots=1), walks=200,
@@ -25,7 +30,7 @@ def plans(quick):
     ] + [
         dict(family=f, checks=[dict(steps=5, slots=2), dict(steps=7, slots=2, force=False, fail=False, count=True)],
              gen=dict(steps=(4 if f == 'chain' else 5), slots=1), walks=300, walk_len=16, sim=dict(num=1500, depth=16))
-        for f in ('chain', 'mounts', 'diamond')
+        for f in ('chain', 'mounts', 'diamond', 'levels')
     ]
 
 
